@@ -51,6 +51,8 @@ def instances(tier, seed):
     # torus: nested square roots; query points stay on the rational-distance family of adjust_seeds (no flips),
     # inside/outside are supplied by the base points (even: outside, odd: inside)
     add("torus", "nearest", paths=1, flips_per_path=0, tier=tier)
+    add("cylinder", "nearest0")      # query exactly on the axis
+    add("sphere", "nearest0")        # query exactly at the centre
     for s in ("halfspace", "sphere", "cylinder", "ellipsoid", "torus"):
         add(s, "grad")
     add("sphere", "support")
@@ -72,6 +74,8 @@ def instances(tier, seed):
 def free_sets(inst, tr, tier, rng):
     shape, query = inst["shape"], inst["query"]
     prm = SHAPE_PARAMS[shape]
+    if query == "nearest0":
+        return [prm + (["pz"] if shape == "cylinder" else [])]
     if query == "nearest":
         if shape == "torus":
             # nested square roots (|Qproj|, |Q-P|, the implicit function's own sqrt): the sign clauses are only decided
@@ -166,6 +170,23 @@ def obligations(enc, inst, tr):
     if inst["query"] == "nearest":
         return ob_nearest(g, inst["shape"], enc, tr, inst.get("tier", "quick"))
     return globals()["ob_" + inst["query"]](g, inst["shape"], enc, tr)
+
+
+# ----------------------------------------------------------------------------------------------------------------- nearest0
+def ob_nearest0(g, shape, enc, tr):
+    """degenerate query (on the cylinder axis / at the sphere centre): every surface point is equally near, the answer must
+    still be a surface point with a unit normal parallel to the gradient there, at distance r from the query"""
+    pos = g.pos_hyps(SHAPE_PARAMS[shape])
+    tag = shape + " nearest (degenerate query): "
+    if tr.note("finite") != "1":
+        return [Ob(tag + "result is a finite point", [Constraint(EQ, P.const(1), "finite")])]
+    np_, n, gnp = g.ov("np"), g.ov("n"), g.ov("g_np")
+    obs = [Ob(tag + "result is a finite point", [Constraint(EQ, P.const(0), "finite")]),zeros(tag + "result lies on the surface (f = 0)", [g.out("f_np")], hyps=pos),
+           zeros(tag + "returned normal is unit", [P.sub(g.norm2(n), P.const(1))], hyps=pos),
+           zeros(tag + "returned normal is parallel to the gradient at the result", g.cross(n, gnp), hyps=pos)]
+    if shape == "cylinder":
+        obs.append(zeros(tag + "result at the height of the query, normal perpendicular to the axis", [P.sub(np_[2], g.out("pz_out")), n[2]], hyps=pos))
+    return obs
 
 
 # ----------------------------------------------------------------------------------------------------------------- nearest
